@@ -3194,3 +3194,5 @@ def check(run, prog):
     rule_dispatch_arity(run, prog)           # R-5.14
     from .c05_file_read import rule_read_answered
     rule_read_answered(run, prog)            # R-5.15
+    from .snippet_rules import rule_declarator_zoo
+    rule_declarator_zoo(run, prog)           # R-5.16
